@@ -30,3 +30,9 @@ claim("C07",
       "Decides that every key encoding/json writes for a log entry and its nested result types has a decoder case with the right token kind (so an entry read back from querylog.json carries every recorded field), that the request integers limit/offset can reach the slicing code only non-negative and without overflow and every request-bounded slice is length-guarded (no parameter value crashes the request), that entries enter the buffer through one funnel and the buffer is encoded and cleared in one critical section, that shutdown flushes memory to the file, and that the paging cursor advances with every scanned record. "
       "Exactly-once/newest-first over memory+file+rotated file, cursor/offset partitioning and search-term semantics quantify over histories and values and are not decided.",
       "DESIGN.md §5 C07")
+
+claim("C17",
+      "exhaustive file-open site census with path provenance + dominating safe-pattern guard on the same cleaned value + entry-point path guards + who-may-write of the pattern list + ban rules (static analysis)",
+      "Decides, on every path of every function of the filter-list packages, that a file is opened only from internal data locations or under a passed pathMatchesAny test on the very cleaned value that is opened; that add and set-url reach storage/download only after validation, which itself succeeds only through the cleaned-path pattern match or the HTTP(S) URL check; that the matcher accepts only a successful glob match on a path equal to its cleaned absolute form; that no file transport exists; and that the pattern list comes only from configuration. "
+      "This is the structural part of 'no spelling of a location reads a file outside the patterns, at add, set-url and refresh'; filepath.Match/Clean semantics and symlinks are trusted/not decided.",
+      "DESIGN.md §5 C17")
